@@ -124,6 +124,9 @@ class HTTPProtocol(BaseGopherProtocol):
         return self.getrenderstr(entry, url)
 
     def getrenderstr(self, entry, url):
+        # The URL of a URL: link or of a remote entry comes straight from a
+        # gophermap or link file; it must not be able to end the attribute.
+        url = html.escape(url)
         retstr = "<TR><TD>"
         retstr += self.getimgtag(entry)
         retstr += "</TD>\n<TD>&nbsp;"
